@@ -26,11 +26,17 @@ type atomKey struct {
 	kind atomKind
 }
 
+type atomIdx struct {
+	ck   string
+	kind atomKind
+}
+
 type LinCtx struct {
 	p      *Program
 	fn     *ssa.Function
 	keys   []atomKey
-	index  map[atomKey]int
+	index  map[atomIdx]int
+	ckMemo map[ssa.Value]string
 	alias  map[ssa.Value]ssa.Value // load -> representative (available loads)
 	memo   map[ssa.Value]Lin
 	busy   map[ssa.Value]bool
@@ -48,7 +54,7 @@ func NewLinCtx(p *Program, fn *ssa.Function) *LinCtx {
 	if p != nil && (p.Cfg.GOARCH == "386" || p.Cfg.GOARCH == "arm") {
 		w = 32
 	}
-	return &LinCtx{p: p, fn: fn, index: map[atomKey]int{}, alias: map[ssa.Value]ssa.Value{}, memo: map[ssa.Value]Lin{},
+	return &LinCtx{p: p, fn: fn, index: map[atomIdx]int{}, ckMemo: map[ssa.Value]string{}, alias: map[ssa.Value]ssa.Value{}, memo: map[ssa.Value]Lin{},
 		busy: map[ssa.Value]bool{}, lenMem: map[ssa.Value]Lin{}, Assumed: map[string]bool{}, intW: w}
 }
 
@@ -70,13 +76,73 @@ func (c *LinCtx) res(v ssa.Value) ssa.Value {
 }
 
 func (c *LinCtx) atom(v ssa.Value, kind atomKind) int {
-	k := atomKey{c.res(v), kind}
+	v = c.res(v)
+	k := atomIdx{c.canonKey(v, 0), kind}
 	if i, ok := c.index[k]; ok {
 		return i
 	}
-	c.keys = append(c.keys, k)
+	c.keys = append(c.keys, atomKey{v, kind})
 	c.index[k] = len(c.keys) - 1
 	return len(c.keys) - 1
+}
+
+// canonKey gives structurally equal pure expressions (go/ssa performs no CSE)
+// the same key; loads, calls, φ-nodes and parameters are identified by value.
+func (c *LinCtx) canonKey(v ssa.Value, d int) string {
+	v = c.res(v)
+	if s, ok := c.ckMemo[v]; ok {
+		return s
+	}
+	var s string
+	if d > 12 {
+		s = fmt.Sprintf("%p", v)
+	} else {
+		switch x := v.(type) {
+		case *ssa.Const:
+			s = "k:" + x.String()
+		case *ssa.Convert:
+			if _, ok := intBasic(x.Type()); ok {
+				s = "cv:" + x.Type().String() + "(" + c.canonKey(x.X, d+1) + ")"
+			}
+		case *ssa.BinOp:
+			a, b := c.canonKey(x.X, d+1), c.canonKey(x.Y, d+1)
+			switch x.Op {
+			case token.ADD, token.MUL, token.AND, token.OR, token.XOR, token.EQL, token.NEQ:
+				if b < a {
+					a, b = b, a
+				}
+			}
+			s = "op" + x.Op.String() + ":" + x.Type().String() + "(" + a + "," + b + ")"
+		case *ssa.UnOp:
+			if x.Op != token.MUL && x.Op != token.ARROW {
+				s = "un" + x.Op.String() + "(" + c.canonKey(x.X, d+1) + ")"
+			}
+		case *ssa.Call:
+			if b, ok := x.Call.Value.(*ssa.Builtin); ok && (b.Name() == "len" || b.Name() == "cap" || b.Name() == "min" || b.Name() == "max") {
+				s = "b:" + b.Name() + "("
+				for _, a := range x.Call.Args {
+					s += c.canonKey(a, d+1) + ","
+				}
+				s += ")"
+			}
+		case *ssa.Slice:
+			lo, hi := "", ""
+			if x.Low != nil {
+				lo = c.canonKey(x.Low, d+1)
+			}
+			if x.High != nil {
+				hi = c.canonKey(x.High, d+1)
+			}
+			if x.Max == nil {
+				s = "sl(" + c.canonKey(x.X, d+1) + "," + lo + "," + hi + ")"
+			}
+		}
+		if s == "" {
+			s = fmt.Sprintf("%p", v)
+		}
+	}
+	c.ckMemo[v] = s
+	return s
 }
 
 func (c *LinCtx) atomName(i int) string {
